@@ -367,6 +367,76 @@ func Run(r *mc.Run) {
 		run("two-deviations-thin-base", thin, 2)
 	}
 
+	// long physical lines: around the 4096-byte default buffer of bufio (and its multiples) and far beyond
+	lens := []int{4090, 4093, 4094, 4095, 4096, 4097, 4098, 8190, 8191, 8192, 8193, 20000}
+	if r.Quick() {
+		lens = []int{4094, 4095, 4096, 4097, 8192, 20000}
+	}
+	type longCase struct {
+		where string
+		n     int
+	}
+	var longs []longCase
+	for _, w := range []string{"first-line", "continuation", "second-continuation", "comment", "field-name", "second-paragraph"} {
+		for _, n := range lens {
+			longs = append(longs, longCase{w, n})
+		}
+	}
+	r.Scenario("long-lines", map[string]interface{}{"line_lengths": lens, "positions": "first line / continuation / second continuation / comment / field name / second paragraph", "options": "LF or CRLF, final newline or not, 3 byte deliveries"}, len(longs), func(i int, st *mc.Stats) bool {
+		c := longs[i]
+		fill := func(n int) string { return strings.Repeat("L", n) }
+		doc := gen.DDoc{gen.DPara{{Name: "A", First: "v", Cont: []gen.DLine{{Marker: ' ', Text: "x"}, {Marker: ' ', Text: "y"}}}, {Name: "B-c", First: "w"}}, gen.DPara{{Name: "X", First: "z"}}}
+		comment := ""
+		switch c.where {
+		case "first-line":
+			doc[0][0].First = fill(c.n - 3) // "A: " + text is c.n bytes
+		case "continuation":
+			doc[0][0].Cont[0].Text = fill(c.n - 1)
+		case "second-continuation":
+			doc[0][0].Cont[1].Text = fill(c.n - 1)
+		case "field-name":
+			doc[0][1].Name = fill(c.n - 3)
+		case "second-paragraph":
+			doc[1][0].First = fill(c.n - 3)
+		case "comment":
+			comment = "#" + fill(c.n-1)
+		}
+		expected := gen.CanonRef(doc.Ref())
+		for _, crlf := range []bool{false, true} {
+			for _, nofinal := range []bool{false, true} {
+				for del := 0; del < 3; del++ {
+					text := doc.Render(gen.RenderOpt{CRLF: crlf, NoFinalNewline: nofinal})
+					if comment != "" {
+						eol := "\n"
+						if crlf {
+							eol = "\r\n"
+						}
+						// the long comment goes between the two continuation lines
+						marker := " x" + eol
+						text = strings.Replace(text, marker, marker+comment+eol, 1)
+					}
+					in := In{text, expected, del, []string{"long-" + c.where}}
+					st.Evals++
+					st.Traces++
+					st.Nontrivial++
+					vs := checkWellFormed("long-lines", in)
+					if len(vs) == 0 {
+						st.Class("all-paths-exact")
+					}
+					for _, v := range vs {
+						// keep artefacts small: the input is reproducible from (position, length, options)
+						st.Violate(v)
+						st.Class(v.Clause)
+					}
+				}
+			}
+		}
+		if st.WantSample() && i%7 == 0 {
+			st.Sample(map[string]interface{}{"long_line_at": c.where, "length": c.n})
+		}
+		return true
+	})
+
 	// invariant on arbitrary input
 	sigma := []string{"A", ":", " ", "\n", "#", ".", "\r", "\t"}
 	L := r.Pick(7, 9)
